@@ -13,7 +13,7 @@ import pints
 import chi
 
 from ..core import tol, vals
-from ..core.engine import Part
+from ..core.engine import Part, key_of
 from ..gen.toymodel import ToyModel
 from ..ref import errors as rerr, toy
 
@@ -192,6 +192,41 @@ def w_grid(case):
                              'parameters is not the reference sum at the '
                              'substituted parameter vector', 'expected': e_tot,
                              'observed': [g1, g2, g3, g4], 'behaviour': 'fixed'})
+            # the same parameters re-fixed to other values, evaluated at the SAME
+            # free vector (every entry point first once)
+            theta2 = theta.copy()
+            for i, v in fix:
+                theta2[i] = v * 1.3
+            e2 = float(np.real(reference(case, theta2)[0]))
+            for first in ('c', 'p', 's'):
+                ll.fix_parameters({names[i]: float(theta2[i]) for i, v in fix})
+                seq = {'c': 'cps', 'p': 'pcs', 's': 'scp'}[first]
+                got2 = []
+                for ep in seq:
+                    if ep == 'c':
+                        got2.append(ll(params[free].copy()))
+                    elif ep == 'p':
+                        got2.append(float(np.sum(
+                            ll.compute_pointwise_ll(params[free].copy()))))
+                    else:
+                        got2.append(ll.evaluateS1(params[free].copy())[0])
+                ntr += 4
+                if not all(tol.close(g, e2) for g in got2):
+                    viol.append({'sub': 'refixed', 'message': 'after re-fixing the '
+                                 'same parameters to other values the evaluations '
+                                 '(order %s) at the same free vector are not the '
+                                 'reference sum at the new values' % seq,
+                                 'expected': e2, 'observed': got2,
+                                 'behaviour': 'refixed'})
+                    break
+                # and back, so that the next round starts from the first values
+                ll.fix_parameters({names[i]: float(v) for i, v in fix})
+                if not tol.close(ll(params[free].copy()), e_tot):
+                    viol.append({'sub': 'refixed_back', 'message': 'fixing back to '
+                                 'the first values does not restore the first score',
+                                 'expected': e_tot, 'observed': 'differs',
+                                 'behaviour': 'refixed'})
+                    break
     # posterior = prior + likelihood
     if case.get('posterior'):
         pri = pints.ComposedLogPrior(*[
@@ -231,7 +266,12 @@ def w_sbml(case):
         m.set_dosing_regimen(1.5, start=0.2, duration=0.3)
         m.set_outputs(case['outputs'])
     ems = [chi_error_model(c) for c in case['ems']]
+    if case.get('pre_sens'):
+        # the user had sensitivities switched on when handing the model over
+        m.enable_sensitivities(True)
     ll = chi.LogLikelihood(m, ems, case['obs'], case['times'])
+    if case.get('pre_sens'):
+        m.enable_sensitivities(False)
     n_mech = m.n_parameters()
     params = np.array(case['params'], dtype=float)
     exp = 0.0
@@ -249,6 +289,17 @@ def w_sbml(case):
             v = rerr.pointwise(code, sig, np.array([ybar]), np.array([y]))[0]
             pw.append(v)
             exp += v
+    first = case.get('first', 'c')
+    if first == 's':
+        # the very first evaluation of the object is evaluateS1
+        s0 = ll.evaluateS1(params.copy())[0]
+        if not tol.close(s0, exp, tol.ODE_REL, tol.ODE_ABS):
+            viol.append({'sub': 'sbml_first_s1', 'message': 'evaluateS1 as the '
+                         'first evaluation of an SBML-driven log-likelihood differs '
+                         'from the reference sum', 'expected': exp, 'observed': s0,
+                         'behaviour': 'sbml_s1'})
+    elif first == 'p':
+        ll.compute_pointwise_ll(params.copy())
     got = ll(params.copy())
     if not tol.close(got, exp, 1e-7, 1e-9):
         viol.append({'sub': 'sbml_total', 'message': 'SBML-driven log-likelihood is '
@@ -261,7 +312,8 @@ def w_sbml(case):
                      'log-likelihoods wrong', 'expected': pw, 'observed': gp,
                      'behaviour': 'sbml_pointwise'})
     s1 = ll.evaluateS1(params.copy())
-    if not tol.close(s1[0], exp, 1e-7, 1e-9):
+    # (the sensitivity-augmented system is integrated separately: ODE tolerance)
+    if not tol.close(s1[0], exp, tol.ODE_REL, tol.ODE_ABS):
         viol.append({'sub': 'sbml_s1', 'message': 'SBML-driven evaluateS1 score '
                      'differs', 'expected': exp, 'observed': s1[0],
                      'behaviour': 'sbml_s1'})
@@ -272,7 +324,8 @@ def w_sbml(case):
             v = float(np.sum(ll.compute_pointwise_ll(params.copy())))
         else:
             v = ll.evaluateS1(params.copy())[0]
-        if not tol.close(v, exp, 1e-7, 1e-9):
+        if not tol.close(v, exp, *((tol.ODE_REL, tol.ODE_ABS) if ep == 's'
+                                   else (1e-7, 1e-9))):
             viol.append({'sub': 'sbml_sequence', 'message': 'evaluation %d (%s) of '
                          'the entry-point sequence %s on one SBML-driven object '
                          'differs from the reference sum' % (k, ep,
@@ -284,7 +337,61 @@ def w_sbml(case):
             'outcome': tol.rnd([got, gp], 8), 'violations': viol}
 
 
-WORKERS = {'grids': w_grid, 'selection': w_grid, 'sbml': w_sbml,
+def w_siblings(case):
+    """Several log-likelihoods built from one user model that already has fixed
+    parameters: each is the reference sum at its own fixed values, whatever is done to
+    the siblings or to the user's object afterwards."""
+    viol = []
+    n_mech = case['n_mech']
+    user = chi.ReducedMechanisticModel(ToyModel(n_mech, 1))
+    names = ['p%d' % i for i in range(n_mech)]
+    full = np.array(case['params'], dtype=float)       # mechanistic + error params
+    pre = dict(case['pre_fixed'])                       # index -> value
+    user.fix_parameters({names[i]: v for i, v in pre.items()})
+    em = chi_error_model(case['ems'][0])
+    lls = [chi.LogLikelihood(user, [em], case['obs'][0], case['times'][0])
+           for _ in range(2)]
+    state = [dict(pre), dict(pre)]
+    all_names = names + lls[0].get_parameter_names()[-(len(full) - n_mech):]
+
+    def expect(k):
+        theta = full.copy()
+        for i, v in state[k].items():
+            theta[i] = v
+        free = [i for i in range(len(full)) if i not in state[k]]
+        return float(np.real(reference(case, theta)[0])), free
+    ntr = 3
+    for op in case['ops']:
+        if op[0] == 'fix':            # on sibling op[1]: {index: value}
+            k = op[1]
+            lls[k].fix_parameters({all_names[i]: v for i, v in op[2]})
+            for i, v in op[2]:
+                if v is None:
+                    state[k].pop(i, None)
+                else:
+                    state[k][i] = v
+        elif op[0] == 'user_fix':     # on the user's own object
+            user.fix_parameters({names[i]: v for i, v in op[1]})
+        ntr += 1
+        for k in (0, 1):
+            e, free = expect(k)
+            x = full[free]
+            g = [lls[k](x.copy()), lls[k].evaluateS1(x.copy())[0],
+                 float(np.sum(lls[k].compute_pointwise_ll(x.copy())))]
+            ntr += 3
+            if not all(tol.close(v, e) for v in g):
+                viol.append({'sub': 'siblings', 'message': 'log-likelihood %d built '
+                             'from a user model with fixed parameters is not the '
+                             'reference sum at its own fixed values after %s'
+                             % (k, case['ops']), 'expected': e, 'observed': g,
+                             'behaviour': 'siblings'})
+                return {'transitions': ntr, 'outcome': 'viol', 'violations': viol}
+    return {'transitions': ntr, 'outcome': key_of([case['ops'], expect(0)[0],
+                                                   expect(1)[0]]),
+            'violations': viol}
+
+
+WORKERS = {'siblings': w_siblings, 'grids': w_grid, 'selection': w_grid, 'sbml': w_sbml,
            'fixing': w_grid}
 
 
@@ -360,6 +467,16 @@ def build(tier, seed):
             for t1 in ms:
                 grids.append(make_case(ems, [t0, t1], 2, [0, 1], seed,
                                        posterior=(len(t0) + len(t1) == 3)))
+    # outputs without any measurement (not all of them), first / middle / last
+    for ems in itertools.product(codes, repeat=2):
+        for t in ms[::2]:
+            grids.append(make_case(ems, [[], t], 2, [0, 1], seed, tag='e'))
+            grids.append(make_case(ems, [t, []], 2, [0, 1], seed, tag='e'))
+    for ems in itertools.product(codes[:2] + codes[3:], repeat=3):
+        for empties in ([0], [1], [2], [0, 1], [1, 2], [0, 2]):
+            ts = [[] if j in empties else ms[(3 + 2 * j) % len(ms)]
+                  for j in range(3)]
+            grids.append(make_case(ems, ts, 3, [0, 1, 2], seed, tag='e'))
     if tier == 'quick':
         # k = 3: every error-model assignment on three collision-forcing grid
         # triples (more than two outputs exercise the accumulated offsets)
@@ -412,6 +529,20 @@ def build(tier, seed):
                     c['fix'] = [[i, fv[i]] for i in sub]
                     c['split'] = split
                     fixing.append(c)
+    # siblings built from one pre-reduced user model: all sequences of <= 2 | 3
+    # operations over {fix / re-fix / release on either sibling, user re-fixes}
+    sib = []
+    base = make_case(['G'], [ms_s[5]], 1, [0], seed, n_mech=3, tag='sib')
+    sops = [['fix', 0, [[2, 0.9]]], ['fix', 1, [[2, 1.2]]], ['fix', 0, [[0, 0.7]]],
+            ['fix', 1, [[0, None]]], ['fix', 0, [[3, 0.6]]], ['fix', 1, [[2, None]]],
+            ['user_fix', [[0, 1.6]]], ['user_fix', [[1, 0.5]]],
+            ['user_fix', [[0, None]]]]
+    for d in (1, 2) if tier == 'quick' else (1, 2, 3):
+        for seq in itertools.product(sops, repeat=d):
+            c = dict(base)
+            c['pre_fixed'] = [[0, 1.1]]
+            c['ops'] = [list(o) for o in seq]
+            sib.append(c)
     sbml = []
     ms_s2 = multisets(lattice, 2)
     outs2 = [['global.tumour_volume', 'central.drug_concentration'],
@@ -428,6 +559,8 @@ def build(tier, seed):
                     for code in ems:
                         prm += [0.5, 0.15][:rerr.N_PARAMS[code]]
                     sbml.append({
+                        'first': 'cps'[len(sbml) % 3],
+                        'pre_sens': (len(sbml) // 3) % 2 == 1,
                         'model': 'erlotinib', 'direct': direct, 'outputs': outs,
                         'ems': list(ems), 'times': [list(t0), list(t1)],
                         'obs': [vals.reals('c01.so0%d' % len(t0), len(t0), 0.5, 4,
@@ -437,6 +570,9 @@ def build(tier, seed):
                         'params': prm})
     return {
         'parts': [
+            Part('siblings', sib, w_siblings,
+                 'two log-likelihoods built from one user model with a fixed '
+                 'parameter: operation sequences on the siblings and the user object'),
             Part('sbml', sbml, w_sbml,
                  '2-output library model with dosing on the solver stand-in: '
                  'output orders x routes x error models x grid pairs'),
